@@ -591,3 +591,33 @@ def x12(cx: Cx, ob: Ob) -> None:
     from ..rules import package_lints
 
     package_lints(cx, ob, {'api.py'})
+
+
+@obligation("C05-D8", "a rejected call raises ValueError and nothing else: no other exception class can escape from add_record / add_prefix (explicit raises, exception constructors, printf-style message formatting with a non-literal template)", floor=1)
+def d8(cx: Cx, ob: Ob) -> None:
+    from ..analyses.mode import Mode
+
+    mode = Mode(cx)
+    for name in ("add_record", "add_prefix"):
+        fn = cx.fn(f"{CONV}.{name}", ob.id)
+        res = mode.analyse(fn, {})
+        ob.site(f"{fn.where} {fn.qualname}", f"may raise {sorted({e.cls for e in res.raises})}")
+        for e in res.raises:
+            c = cx.model.class_by_short(e.cls)
+            ok = e.cls == "ValueError" or (c is not None and "ValueError" in cx.model.mro_names(c))
+            if not ok:
+                origin = cx.model.functions.get(e.origin)
+                ob.violate(
+                    fn.qualname,
+                    where(origin, e.line) if origin else e.origin,
+                    f"{name} can raise {e.cls} ({' / '.join(str(v) for v in e.via) or e.origin}) where the property promises ValueError for a rejected call",
+                    witness="an existing record whose URI prefix contains '%' (percent-encoded) and a rejected add: TypeError instead of ValueError",
+                    detail=f"foreign:{e.cls}",
+                )
+
+
+@obligation("C05-X13", "records are copied and serialised whole: no model_dump(exclude_unset=True) / model_fields_set anywhere in the package (in-place merges do not update pydantic's fields_set)", floor=1)
+def x13(cx: Cx, ob: Ob) -> None:
+    from ..rules import no_fields_set_dependence
+
+    no_fields_set_dependence(cx, ob)
